@@ -20,6 +20,10 @@
    only ever receives an element that is not yet in it (the replay check
    returns earlier), so it is a list without duplicates in insertion order.
    on_threat is not supplied; silent=True.
+   Signatures are substrings, regexes of the AST of Regex.v, or HOST patterns
+   (KHost f: constructs outside the AST such as back-references; the matcher is
+   an arbitrary function of the content alone).  The scan consults every active
+   signature on its own: [scan] is a filter, whatever else is installed.
    Long histories: [burst_ops] (a counted burst of filter calls on pairwise
    different inputs) is plain notation for a list of OFilter operations.
 
@@ -375,6 +379,14 @@ Definition istep (cc : charcls) (vals : list validator) (st : istate) (op : iop)
   | IReset =>
       (mkIS (i_pats st) (i_threshold st) (i_decay st) (i_clock st) 0 None 0 (i_checks st) (i_blocks st),
        None)
+  end.
+
+(* a history of innate operations; each one comes with the validator list in
+   force at that moment (add_validator = the list grows between operations) *)
+Fixpoint irun (cc : charcls) (st : istate) (ops : list (list validator * iop)) : istate :=
+  match ops with
+  | [] => st
+  | (vals, op) :: rest => irun cc (fst (istep cc vals st op)) rest
   end.
 
 (* ---- the shipped validators that are simple enough to transcribe ------- *)
